@@ -614,7 +614,8 @@ def copy_to_fresh(src, root, expected):
         #                        each of them, which the model (one record per oid and transaction) does not follow
     if src_blobrecs != set(expected):
         return [], [], []      # source already lost a file (open wrapper-pack finding): restore() path, not ours
-    dst = Env(os.path.join(root, 'copy'), 'fs')
+    # the copy lives in a FileStorage whose blob directory has the OTHER layout
+    dst = Env(os.path.join(root, 'copy'), 'fs', layout='bushy' if src.layout == 'lawn' else 'lawn')
     problems = []
     try:
         try:
